@@ -124,4 +124,36 @@ def rule_status(ctx):
     ctx.floor('K12', 'readers of the status file', len(cs), 1)
 
 
-RULES = [rule_point_file, rule_ta, rule_status]
+DESTRUCTIVE = ['utils::fatal::remove_file', 'std::fs::remove_file', 'std::fs::File::create', 'std::fs::write', 'std::fs::rename',
+               'utils::fatal::remove_dir_all', 'std::fs::remove_dir_all', 'std::fs::File::set_len']
+
+
+def rule_replace_by_rename_only(ctx):
+    """The stored version stays in place until the rename: nothing removes/truncates the target path before persist()."""
+    n = 0
+    for b in ctx.facts.all_bodies():
+        if not b.file.endswith('src/store.rs') or '::test::' in b.nid:
+            continue
+        ps = b.calls('tempfile::NamedTempFile::persist')
+        if not ps:
+            continue
+        ctx.bodies.add(b.nid)
+        for pc in ps:
+            n += 1
+            target = arg_path(pc, 1)
+            bad = []
+            for d in b.calls(DESTRUCTIVE):
+                if not b.can_reach(d.bb, pc.bb):
+                    continue
+                paths = [arg_path(d, i) for i in range(len(d.term['args']))]
+                if any(pp == target or (target and pp.startswith(target)) for pp in paths):
+                    bad.append(d)
+            ctx.check(not bad, 'K12', '%s:old-version-kept-until-rename' % b.nid,
+                      'nothing removes or truncates %s before the temp file is renamed over it' % target,
+                      '%s calls %s on %s before NamedTempFile::persist: a crash (or a failing rename) in between leaves NO stored '
+                      'version of the publication point - the atomic replace-by-rename protocol is broken'
+                      % (b.nid, [x.callee for x in bad], target), loc=(bad[0].loc() if bad else pc.loc()))
+    ctx.floor('K12', 'persist sites in store.rs', n, 1)
+
+
+RULES = [rule_replace_by_rename_only, rule_point_file, rule_ta, rule_status]
